@@ -393,6 +393,21 @@ impl Module for M {
                     }
                 }
             }
+            // fill area inside stroke area: many random geometries with wild (oversized, unequal) radii
+            let n = if quick { 6000 } else { 60_000 };
+            for _ in 0..n {
+                let smax: i64 = *rng.pick(&[5i64, 9, 16, 30]);
+                let w = rng.range(0, smax);
+                let h = rng.range(0, smax);
+                let mut r = [(0u32, 0u32); 4];
+                let rm = *rng.pick(&[3i64, 8, 20, 60]);
+                for k in 0..4 {
+                    r[k] = if rng.chance(1, 4) { (0, 0) } else { (rng.range(0, rm) as u32, rng.range(0, rm) as u32) };
+                }
+                let sw = rng.range(0, smax.min(8));
+                let a = rng.below(3);
+                emit(format!("rrect.areas {} {} {} {} {} {} {}", rng.range(-9, 9), rng.range(-9, 9), w, h, radii_toks(&r), sw, a));
+            }
             // the witnesses of the repaired fill-fallback defect and larger / random cases
             let n = if quick { 300 } else { 6000 };
             for _ in 0..n {
@@ -634,6 +649,22 @@ impl Module for M {
                         ctx.count("rrect:areas:fill-collapsed");
                         ctx.expect(fa.rectangle.is_zero_sized(), "C06:rrect-fill-area-not-shrunk-by-inside-width", || fmt_rr(&fa));
                     }
+                }
+                // every point of the fill area lies in the stroke area (Lean: `FillInStroke`, the hypothesis
+                // of `styled_rrect_exact_partial`; unproved for non-zero widths, so it is checked here)
+                {
+                    let fb = fa.bounding_box();
+                    let mut escaped = None;
+                    if fb.size.width <= 400 && fb.size.height <= 400 {
+                        for p in fb.points() {
+                            if fa.contains(p) && !sa.contains(p) {
+                                escaped = Some(p);
+                            }
+                        }
+                    }
+                    ctx.expect(escaped.is_none(), "C06:rrect-fill-area-not-inside-stroke-area", || {
+                        format!("{:?} in fill area {} but not in stroke area {}", escaped, fmt_rr(&fa), fmt_rr(&sa))
+                    });
                 }
                 format!("s={} f={} sbb={}", fmt_rr(&sa), fmt_rr(&fa), fmt_rect(&sbb))
             }
